@@ -6,7 +6,7 @@
    history es, so quantifying over es quantifies over all orders of these events. *)
 From Coq Require Import String.
 From PDV Require Import lib.Base gen.Gen_C08 gen.Gen_C09 model.C08_Steps model.C08_Builder model.C09_OpCtl
-     proof.C08_BuilderProof proof.C09_StatusProof proof.C09_CtlProof proof.C09_LeftProof proof.C08_ListFacts proof.C09_CountProof proof.C09_StaleProof proof.C09_OwnGeneral
+     proof.C08_BuilderProof proof.C08_JointMain proof.C09_StatusProof proof.C09_CtlProof proof.C09_LeftProof proof.C08_ListFacts proof.C09_CountProof proof.C09_StaleProof proof.C09_OwnGeneral proof.C09_Tidy proof.C09_BuilderMono
      proof.C09_OwnProof proof.C09_Skel.
 Local Open Scope Z_scope.
 
@@ -238,6 +238,49 @@ Theorem C09_op_conf_ver_changed_is_sum :
     op_conf_ver_changed o r = cvc_sum r (done ++ [s])%list.
 Proof. exact op_cvc_is_sum. Qed.
 
+(* ---- a syntactic criterion for the hypothesis, for ANY plan: every later step is compatible with every earlier one
+        (compat: other store; or role changes after a learner add / a removal; the matching leave after an enter; removal of
+        a store a joint step did not promote; a re-add under another id after a removal), joint steps come in matching
+        enter / leave pairs with only leadership moving in between, and the steps name non-zero peer ids ---- *)
+Theorem C09_tidy_plans_are_monotone :
+  forall g ss r,
+    plan_ok g r ss = true -> nodup_stores (peers r) = true -> is_in_joint r = false ->
+    bracketed None ss = true -> forallb step_ids_nonzero ss = true -> tidy_from nil ss = true ->
+    monotone_from nil r ss = true.
+Proof.
+  intros g ss r Hok Hnd Hnj Hb Hz Ht. apply (tidy_monotone g ss nil r None); auto.
+  - apply plan_ok_check. exact Hok.
+  - apply not_joint_NJ. exact Hnj.
+Qed.
+
+(* ---- the builder's JOINT path (the default configuration) satisfies it in general: any region, any call sequence, any
+        cluster; peer ids of the origin and of the added peers non-zero.  So own_steps_never_stale is unconditional for
+        every plan built with joint consensus ---- *)
+Theorem C09_builder_joint_plans_monotone :
+  forall i b ss kl kr,
+    nodup_stores (peers (i_region i)) = true ->
+    is_in_joint (i_region i) = false ->
+    (exists lp, get_store_peer (i_region i) (leader (i_region i)) = Some lp /\ prole lp = Voter) ->
+    region_ids_nonzero (i_region i) = true -> (forall a, In a (b_add b) -> pid a <> 0) ->
+    prepared i = Some b -> b_use_joint b = true -> build i = Built ss kl kr ->
+    monotone_from nil (i_region i) ss = true.
+Proof. exact builder_joint_monotone_pf. Qed.
+
+Theorem C09_own_steps_never_stale_joint_builder :
+  forall i b ss kl kr,
+    nodup_stores (peers (i_region i)) = true ->
+    is_in_joint (i_region i) = false ->
+    (exists lp, get_store_peer (i_region i) (leader (i_region i)) = Some lp /\ prole lp = Voter) ->
+    region_ids_nonzero (i_region i) = true -> (forall a, In a (b_add b) -> pid a <> 0) ->
+    prepared i = Some b -> b_use_joint b = true -> build i = Built ss kl kr ->
+    heartbeats_fine (conf_ver (i_region i)) nil (i_region i) ss = true.
+Proof.
+  intros i b ss kl kr H1 H2 H3 H4 H5 H6 H7 H8.
+  apply (C09_own_steps_never_stale (goal_of b)); auto.
+  - eapply builder_joint_plan_ok_general_pf; eauto.
+  - eapply builder_joint_monotone_pf; eauto.
+Qed.
+
 (* the builder's plans satisfy the hypothesis (bounded: exhaustive for <= 3 stores; together with
    C09_own_steps_never_stale_bounded, which runs the whole controller + store loop on the same domain) *)
 Theorem C09_builder_plans_monotone_bounded :
@@ -303,5 +346,8 @@ Print Assumptions C09_step_accounting.
 Print Assumptions C09_own_steps_never_stale.
 Print Assumptions C09_stale_test_keeps_operator.
 Print Assumptions C09_op_conf_ver_changed_is_sum.
+Print Assumptions C09_tidy_plans_are_monotone.
+Print Assumptions C09_builder_joint_plans_monotone.
+Print Assumptions C09_own_steps_never_stale_joint_builder.
 Print Assumptions C09_builder_plans_monotone_bounded.
 Print Assumptions C09_own_steps_never_stale_needs_monotonicity.
